@@ -143,8 +143,10 @@ def ring_after_branch(smiles):
 
 
 def centre_partner_after_branch(smiles):
-    """True if a stereo centre c has two ring-closure partners p, q and p writes its closing digit for c AFTER a
-    branch that contains q (the decidable input class of the recorded C04 finding)"""
+    """True if a stereo centre c has two ring bonds and the CLOSING digit of one of them is written (at c itself or at
+    the partner) after a branch that contains the closing digit of the other (the decidable input class of the
+    recorded C04 finding: the decoder forms the ring bonds in the order their closing digits are written, the
+    encoder's chirality fix-up assumes 'rings closed here first, then rings opened here by partner index')"""
     from spec import smiles_reader as R
     try:
         m = R.read_smiles(smiles)
@@ -155,9 +157,9 @@ def centre_partner_after_branch(smiles):
         partners.setdefault(i, set()).add(j)
         partners.setdefault(j, set()).add(i)
 
-    def inside(q, root, p):
+    def inside(q, root, top):
         k = q
-        while k is not None and k != p:
+        while k is not None and k != top:
             if k == root:
                 return True
             k = m.atoms[k].prev
@@ -165,16 +167,19 @@ def centre_partner_after_branch(smiles):
     for c, a in enumerate(m.atoms):
         if a.chirality is None or len(partners.get(c, ())) < 2:
             continue
-        for p_ in partners[c]:
+        closers = {p_: max(c, p_) for p_ in partners[c]}          # ring bond (c, p_) is closed at the later atom
+        for p_, z in closers.items():
+            other = p_ if z == c else c                            # the digit at z names `other`
             kids = []
-            for e in m.neighbors[p_]:
+            for e in m.neighbors[z]:
                 if e[0] != 'atom':
                     continue
                 j = e[1]
-                if j == c and j in partners.get(p_, ()):
-                    if any(inside(q, kid, p_) for kid in kids for q in partners[c] if q != p_):
-                        return True
-                elif m.atoms[j].prev == p_:
+                if j == other and j in partners.get(z, ()):
+                    for q_, z2 in closers.items():
+                        if q_ != p_ and z2 != z and any(inside(z2, kid, z) for kid in kids):
+                            return True
+                elif m.atoms[j].prev == z:
                     kids.append(j)
     return False
 
